@@ -811,6 +811,7 @@ type Facts struct {
 	Translated  map[string]string   `json:"translated"` // function -> "" (translated) | reason it was refused
 	GenWritten  []string            `json:"gen_written"`
 	Inlined     []string            `json:"inlined"` // call sites of pure scalar helpers replaced by the helper's body (inline.go)
+	EnvVars     []string            `json:"env_vars"` // names the root package passes to os.Getenv / os.LookupEnv ("*": os.Environ is called)
 	LibPins     map[string]string   `json:"lib_pins"` // library function the model transcribes -> hash of its source
 }
 
@@ -1110,6 +1111,7 @@ func main() {
 		gen["Words/"+n+".lean"] = wordsLean("Bip39V.Gen.Words", n, words[n], true, facts.WordlistSrc[n])
 	}
 	gen["Lang.lean"] = langLean(&facts, names)
+	facts.EnvVars = envVarsRead(allFiles)
 	gen["Source.lean"] = sourceLean(&facts, allFiles)
 	gen["Gates.lean"] = gatesText
 	gen["Consts.lean"] = constsLean(&facts)
